@@ -177,7 +177,7 @@ def check(ctx):
                 f'drift is computed from {", ".join(geo_text(g) for g in gs)}' if not ok_kind else f'drift uses {e["fn"]} instead of the mean'))
     res = it.result
     if res is not None and res.axes is not None:
-        ok = res.axes == ('frame', 'new', 'xyz')
+        ok = res.axes in (('frame', 'new', 'xyz'), ('frame', 'one', 'xyz'))  # a length-one axis at the atom position
         ctx.ob('R3', fd, 'return value', True if ok else None, 'one drift vector per frame, broadcast over atoms' if ok else f'axes {res.axes}')
     # ---- R4
     fa = ctx.fn(f'{TRAJ}.apply_drift_correction')
